@@ -41,7 +41,7 @@ def run(ctx):
             where = ctx.rng.choice(['body', 'body', 'master', 'master', 'auto:' + ctx.rng.choice(names)])
             target = ctx.rng.choice(names)
             if attr[1].endswith('class-names') or attr[1].endswith('dash-names'):
-                target = ' '.join(ctx.rng.sample(names, ctx.rng.randint(1, min(3, len(names)))))
+                target = ctx.rng.choice([' ', ' ', '  ', '\t', '\n', ' \n\t'])[:].join(ctx.rng.sample(names, ctx.rng.randint(1, min(3, len(names)))))      # any white space separates the names
             ctx.rng._second = None
             if ctx.rng.random() < 0.4:
                 a2 = ctx.rng.choice([a for a in allrefs if a != attr]); t2 = ctx.rng.choice(names)
